@@ -275,15 +275,14 @@ theorem optStar_run (g0 : Grammar) (hu : g0.usets = g.usets)
 end ws
 
 /-- **the WHITESPACE case of the fusion** -/
-theorem fusionWS {F : Feat} {g : Grammar} (hwf : WF F g)
+theorem fusionWS {g : Grammar} (hwf : WF g)
     (hprog : ∀ wr es alts, g.lookup "COMMENT" = none → g.lookup "WHITESPACE" = some wr →
       wr.body = .choice es → Opt.squash 1000 es [] = some alts → ∀ s ci, Alt.lit s ci ∈ alts → s ≠ []) :
     FusionWS g := by
-  intro wr es alts hc hw hs hb hq ho
-  have hns := hwf.lookup_skip
+  intro hns wr es alts hc hw hs hb hq ho
   have hwn : L1.isTriviaName wr.name = true := by
     rw [lookup_name hw]; decide
-  have hnode : AllN (NodeOK ⟨sigOf g, forced wr⟩) (.choice es) := hb ▸ hwf.nodes wr (lookup_mem hw)
+  have hnode : AllN (NodeOK (sigOf g)) (.choice es) := hb ▸ hwf.nodes wr (lookup_mem hw)
   have hall : AllNL SqOK es := AllNL.imp2 (fun y hy => SqOK_of_NodeOK y hy.root) es hnode.2
   have hpw := op_pairwise g ho
   have hok := squash_altOK 1000 es [] alts hq hall (fun a ha => by simp at ha)
@@ -304,7 +303,7 @@ theorem fusionWS {F : Feat} {g : Grammar} (hwf : WF F g)
     · have ha' : s.atomic = false := by simpa using ha
       have hst : ({ s with atomic := true } : S0).atomic = true := rfl
       have hs' : s = { ({ s with atomic := true } : S0) with atomic := false } := by cases s; simp_all
-      rw [skip_ws_loop hwf.fused hw hc _ n s ha'] at hne' ⊢
+      rw [skip_ws_loop hwf.noFused hw hc _ n s ha'] at hne' ⊢
       rw [hs'] at hne' ⊢
       rw [loopW_fwd inp hwn hs (hbody inp) hpw hok hne n n _ hst hne']
       refine ⟨1, fun m hm => ?_⟩
@@ -327,7 +326,7 @@ theorem fusionWS {F : Feat} {g : Grammar} (hwf : WF F g)
           (Nat.le_refl _)
         refine ⟨N, fun n hn => ?_⟩
         show skip g (run g inp n) n { ({ s with atomic := true } : S0) with atomic := false } = _
-        rw [skip_ws_loop hwf.fused hw hc _ n _ rfl]
+        rw [skip_ws_loop hwf.noFused hw hc _ n _ rfl]
         exact hN n n hn hn
 
 end OptS
